@@ -3,3 +3,5 @@ pub mod zipw;
 pub mod xlsx;
 pub mod cfb;
 pub mod biff;
+pub mod ods;
+pub mod xlsb;
